@@ -1,5 +1,287 @@
-// stub: check for C14 not built yet
+use c14::*;
+use serde::{Deserialize, Serialize};
+use std::collections::HashMap;
+use std::sync::OnceLock;
+use vcore::proptest::prelude::*;
+use vcore::{Cx, Level, Res};
+
+const RULE: &str = "cases are (a) the COMPLETE product of event classes — kind {absent, typed span, typed metric, text span, text metric, unknown text, upper-case SPAN, mixed-case Metric, padded ' metric ', integer, bool} x extent {none, point, range, empty range} x metric value {int, float, int seq, float seq, mixed numeric seq, empty seq, nested seq, seq with a text element, text, numeric-looking text, bool, missing, u64 above i64::MAX; sequences captured through sval and through serde} x aggregation {absent, sum, count, last, min, max} x all 8 subsets of configured signals x wire (quick: HTTP/protobuf, HTTP/JSON; thorough: also gzip and gRPC), each class one case served by a real emit_otlp emitter per (subset, wire) talking to the scripted collector, and (b) random streams of 1-6 events with random payloads (other integer/float widths, NaN/inf, null, random kind texts and case/padding variants, extra properties, kind property first or last) over random per-signal wire mixes. Non-trivial = the event carries (or may carry) a span/metric kind but that kind's signal is not configured or the event fails the kind's qualification (metric without a numeric/numeric-sequence value, span without a range extent).";
+
+// ---------------------------------------------------------------------------------------------
+// (a) complete class product
+
+const KINDS: usize = 11;
+const EXTENTS: usize = 4;
+const VALUES: usize = 18;
+const AGGS: usize = 6;
+const PER_CONFIG: usize = KINDS * EXTENTS * VALUES * AGGS;
+
+#[derive(Serialize, Deserialize, Debug, Clone, Copy, PartialEq, Eq, Hash)]
+struct ClassCase {
+    /// bit 0 logs, bit 1 traces, bit 2 metrics
+    subset: u8,
+    wire: Wire,
+    kind: u8,
+    extent: u8,
+    value: u8,
+    agg: u8,
+}
+
+impl ClassCase {
+    fn index(&self) -> usize {
+        ((self.kind as usize * EXTENTS + self.extent as usize) * VALUES + self.value as usize) * AGGS + self.agg as usize
+    }
+
+    fn from_index(subset: u8, wire: Wire, i: usize) -> ClassCase {
+        let agg = i % AGGS;
+        let i = i / AGGS;
+        let value = i % VALUES;
+        let i = i / VALUES;
+        let extent = i % EXTENTS;
+        let kind = i / EXTENTS;
+        ClassCase { subset, wire, kind: kind as u8, extent: extent as u8, value: value as u8, agg: agg as u8 }
+    }
+
+    fn spec(&self) -> EventSpec {
+        let kind = match self.kind {
+            0 => KindSpec::Absent,
+            1 => KindSpec::Typed { span: true },
+            2 => KindSpec::Typed { span: false },
+            3 => KindSpec::Text("span".into()),
+            4 => KindSpec::Text("metric".into()),
+            5 => KindSpec::Text("custom".into()),
+            6 => KindSpec::Text("SPAN".into()),
+            7 => KindSpec::Text("Metric".into()),
+            8 => KindSpec::Text(" metric ".into()),
+            9 => KindSpec::Int(1),
+            _ => KindSpec::Bool(true),
+        };
+        let extent = match self.extent {
+            0 => ExtentSpec::None,
+            1 => ExtentSpec::Point { secs: 10 },
+            2 => ExtentSpec::Range { secs: 10, len_ms: 1500 },
+            _ => ExtentSpec::Range { secs: 10, len_ms: 0 },
+        };
+        let ints = vec![Num::I(1), Num::I(-2), Num::I(3)];
+        let floats = vec![Num::F(1500), Num::F(-250)];
+        let mixed = vec![Num::I(1), Num::F(2500)];
+        let (value, capture) = match self.value {
+            0 => (ValueSpec::I64(42), Capture::Sval),
+            1 => (ValueSpec::F64(1500), Capture::Sval),
+            2 => (ValueSpec::Seq(ints), Capture::Sval),
+            3 => (ValueSpec::Seq(ints), Capture::Serde),
+            4 => (ValueSpec::Seq(floats), Capture::Sval),
+            5 => (ValueSpec::Seq(floats), Capture::Serde),
+            6 => (ValueSpec::Seq(mixed), Capture::Serde),
+            7 => (ValueSpec::Seq(vec![]), Capture::Sval),
+            8 => (ValueSpec::Seq(vec![]), Capture::Serde),
+            9 => (ValueSpec::Nested(vec![vec![1, 2], vec![3]]), Capture::Sval),
+            10 => (ValueSpec::Nested(vec![vec![1, 2], vec![3]]), Capture::Serde),
+            11 => (ValueSpec::SeqWithText(2), Capture::Serde),
+            12 => (ValueSpec::Text("hello".into()), Capture::Sval),
+            13 => (ValueSpec::Text("42".into()), Capture::Sval),
+            14 => (ValueSpec::Bool(true), Capture::Sval),
+            15 => (ValueSpec::Missing, Capture::Sval),
+            16 => (ValueSpec::U64(u64::MAX), Capture::Sval),
+            _ => (ValueSpec::U64(i64::MAX as u64 + 1), Capture::Sval),
+        };
+        let agg = match self.agg {
+            0 => AggSpec::Absent,
+            1 => AggSpec::Text("sum".into()),
+            2 => AggSpec::Text("count".into()),
+            3 => AggSpec::Text("last".into()),
+            4 => AggSpec::Text("min".into()),
+            _ => AggSpec::Text("max".into()),
+        };
+        EventSpec { kind, extent, value, agg, capture, extras: vec![], kind_last: false }
+    }
+}
+
+fn wires(quick: bool) -> Vec<Wire> {
+    if quick {
+        vec![Wire::HttpProto, Wire::HttpJson]
+    } else {
+        vec![Wire::HttpProto, Wire::HttpJson, Wire::HttpProtoGzip, Wire::HttpJsonGzip, Wire::GrpcProto, Wire::GrpcProtoGzip]
+    }
+}
+
+type Table = HashMap<(u8, Wire), ConfigRun>;
+static TABLE: OnceLock<Table> = OnceLock::new();
+
+/// One real emitter per (subset, wire) serves every class of that configuration.
+fn precompute(quick: bool) -> Table {
+    let configs: Vec<(u8, Wire)> = wires(quick).into_iter().flat_map(|w| (0..8u8).map(move |s| (s, w))).collect();
+    let mut out = HashMap::new();
+    std::thread::scope(|scope| {
+        let handles: Vec<_> = configs
+            .iter()
+            .map(|&(subset, wire)| {
+                scope.spawn(move || {
+                    let cfg = Config::uniform(subset, wire);
+                    let events: Vec<EventSpec> = (0..PER_CONFIG).map(|i| ClassCase::from_index(subset, wire, i).spec()).collect();
+                    ((subset, wire), run_config(&cfg, 0, &events))
+                })
+            })
+            .collect();
+        for h in handles {
+            let (k, v) = h.join().expect("config run panicked");
+            out.insert(k, v);
+        }
+    });
+    out
+}
+
+fn check_class(case: &ClassCase, quick: bool, cx: &mut Cx) -> Res {
+    let cfg = Config::uniform(case.subset, case.wire);
+    let spec = case.spec();
+    classify(&cfg, &spec, cx);
+    cx.class(&format!("wire:{:?}", case.wire));
+    if cx.replaying {
+        // replay / regression: a fresh emitter for this one event
+        let run = run_config(&cfg, 7, &[spec.clone()]);
+        judge_run(&run, cx)?;
+        judge(&cfg, &spec, &run.obs[0], cx)
+    } else {
+        let table = TABLE.get_or_init(|| precompute(quick));
+        let run = &table[&(case.subset, case.wire)];
+        judge_run(run, cx)?;
+        judge(&cfg, &spec, &run.obs[case.index()], cx)
+    }
+}
+
+// ---------------------------------------------------------------------------------------------
+// (b) random streams
+
+#[derive(Serialize, Deserialize, Debug, Clone, PartialEq)]
+struct StreamCase {
+    cfg: Config,
+    events: Vec<EventSpec>,
+}
+
+fn wire() -> impl Strategy<Value = Wire> {
+    prop_oneof![
+        3 => Just(Wire::HttpProto),
+        3 => Just(Wire::HttpJson),
+        1 => Just(Wire::HttpProtoGzip),
+        1 => Just(Wire::HttpJsonGzip),
+        1 => Just(Wire::GrpcProto),
+        1 => Just(Wire::GrpcProtoGzip),
+    ]
+}
+
+fn config() -> impl Strategy<Value = Config> {
+    let sig = || prop_oneof![2 => wire().prop_map(Some), 1 => Just(None)];
+    (sig(), sig(), sig()).prop_map(|(logs, traces, metrics)| Config { logs, traces, metrics })
+}
+
+fn kind_text() -> impl Strategy<Value = String> {
+    prop::sample::select(vec![
+        "span", "metric", "SPAN", "Span", "sPaN", "METRIC", "Metric", "mETRIC", " span", "metric ", "\tspan\n", "spans", "spanx", "sp", "met",
+        "metrics", "custom", "", "event", "span span", "span,metric", "log",
+    ])
+    .prop_map(|s| s.to_string())
+}
+
+fn num() -> impl Strategy<Value = Num> {
+    prop_oneof![any::<i64>().prop_map(Num::I), (-100_000i64..100_000).prop_map(Num::I), any::<i32>().prop_map(Num::F)]
+}
+
+fn event() -> impl Strategy<Value = EventSpec> {
+    let kind = prop_oneof![
+        2 => Just(KindSpec::Absent),
+        3 => any::<bool>().prop_map(|span| KindSpec::Typed { span }),
+        6 => kind_text().prop_map(KindSpec::Text),
+        1 => any::<i64>().prop_map(KindSpec::Int),
+        1 => any::<bool>().prop_map(KindSpec::Bool),
+    ];
+    let extent = prop_oneof![
+        2 => Just(ExtentSpec::None),
+        2 => (0u32..1_000_000).prop_map(|secs| ExtentSpec::Point { secs }),
+        3 => (0u32..1_000_000, 1u32..10_000_000).prop_map(|(secs, len_ms)| ExtentSpec::Range { secs, len_ms }),
+        1 => (0u32..1_000_000).prop_map(|secs| ExtentSpec::Range { secs, len_ms: 0 }),
+    ];
+    let value = prop_oneof![
+        2 => Just(ValueSpec::Missing),
+        3 => any::<i64>().prop_map(ValueSpec::I64),
+        1 => any::<i32>().prop_map(ValueSpec::I32),
+        1 => any::<u8>().prop_map(ValueSpec::U8),
+        2 => prop_oneof![any::<u64>(), Just(i64::MAX as u64), Just(i64::MAX as u64 + 1), Just(u64::MAX), 0u64..1000].prop_map(ValueSpec::U64),
+        3 => any::<i32>().prop_map(ValueSpec::F64),
+        1 => any::<i16>().prop_map(ValueSpec::F32),
+        1 => Just(ValueSpec::NaN),
+        1 => any::<bool>().prop_map(|neg| ValueSpec::Inf { neg }),
+        4 => prop::collection::vec(num(), 0..6).prop_map(ValueSpec::Seq),
+        2 => prop::collection::vec((-50i64..50).prop_map(Num::I), 1..40).prop_map(ValueSpec::Seq),
+        1 => prop::collection::vec(prop::collection::vec(any::<i64>(), 0..3), 1..4).prop_map(ValueSpec::Nested),
+        1 => (0u8..4).prop_map(ValueSpec::SeqWithText),
+        2 => prop::sample::select(vec!["hello", "42", "1.5", "", "NaN", "[1,2]"]).prop_map(|s| ValueSpec::Text(s.to_string())),
+        1 => any::<bool>().prop_map(ValueSpec::Bool),
+        1 => Just(ValueSpec::Null),
+    ];
+    let agg = prop_oneof![
+        3 => Just(AggSpec::Absent),
+        6 => prop::sample::select(vec!["sum", "count", "last", "min", "max", "SUM", "avg", ""]).prop_map(|s| AggSpec::Text(s.to_string())),
+        1 => any::<i64>().prop_map(AggSpec::Int),
+    ];
+    let capture = prop_oneof![Just(Capture::Sval), Just(Capture::Serde)];
+    (kind, extent, value, agg, capture, prop::collection::vec(any::<i64>(), 0..3), any::<bool>()).prop_map(
+        |(kind, extent, value, agg, capture, extras, kind_last)| EventSpec { kind, extent, value, agg, capture, extras, kind_last },
+    )
+}
+
+fn stream_case() -> impl Strategy<Value = StreamCase> {
+    (config(), prop::collection::vec(event(), 1..=6)).prop_map(|(cfg, events)| StreamCase { cfg, events })
+}
+
+fn check_stream(case: &StreamCase, cx: &mut Cx) -> Res {
+    let run = run_config(&case.cfg, 100, &case.events);
+    for w in [case.cfg.logs, case.cfg.traces, case.cfg.metrics].into_iter().flatten() {
+        cx.class(&format!("wire:{w:?}"));
+    }
+    judge_run(&run, cx)?;
+    for (e, obs) in case.events.iter().zip(&run.obs) {
+        classify(&case.cfg, e, cx);
+        judge(&case.cfg, e, obs, cx)?;
+    }
+    Ok(())
+}
+
 fn main() {
-    eprintln!("C14: check not built yet");
-    std::process::exit(2);
+    vcore::run(
+        "C14",
+        Level::Exploration,
+        RULE,
+        &[
+            "the scripted collector (harness/collector) acknowledges every request; it decodes protobuf bodies with the prost types generated in the repository and JSON bodies with a lenient proto3-JSON reader; an event is identified by its `case_id` attribute (metrics: on the data points) or, where no attribute survives, by its message `c<case_id>` (log body / span name / metric name)",
+            "the `event_discarded` counter is sampled immediately before and after each `emit` call on the emitting thread (the counter is incremented synchronously inside `emit`)",
+            "outcomes the property text leaves open are accepted either way and counted as don't-care: kind texts that equal span/metric only ignoring case or surrounding whitespace (either that kind's signal or the fallback), metric values that are an empty sequence, a u64 above i64::MAX, NaN or an infinity (metrics or the fallback); an empty range (start == end) IS a range extent per the Extent documentation",
+            "exactly-once is judged over every request the collector received after a successful blocking_flush",
+        ],
+        |s| {
+            s.require("nontrivial", 3000);
+            s.require("route:metrics", 300);
+            s.require("route:traces", 300);
+            s.require("route:logs", 300);
+            s.require("route:dropped", 300);
+            s.require("dont-care", 100);
+            s.require("kind:wrong-case-or-padded", 100);
+            s.require("extent:empty-range", 100);
+            s.require("value:huge-u64", 100);
+            s.require("value:empty-seq", 100);
+            s.require("value:nested-seq", 100);
+            s.require("wire:HttpProto", 100);
+            s.require("wire:HttpJson", 100);
+            s.require("wire:GrpcProto", 10);
+            s.require("signals:---", 100);
+            s.require("signals:LTM", 100);
+
+            let quick = s.quick();
+            let cases = wires(quick)
+                .into_iter()
+                .flat_map(|w| (0..8u8).flat_map(move |sub| (0..PER_CONFIG).map(move |i| ClassCase::from_index(sub, w, i))));
+            s.enumerate("class-product", cases, move |c, cx| check_class(c, quick, cx));
+
+            s.gen("random-streams", s.n(1500, 60_000), stream_case, check_stream);
+        },
+    )
 }
